@@ -35,6 +35,13 @@ func Oracle(sc pairsim.Scenario, tr pairsim.Trace) *evid.Failure {
 			return evid.Failf("pool/response-changed-while-held", sc, "operation %d (%s): the response returned to the application changed before the application released it: %s", i, sc.Ops[i].Kind, r.HeldChanged)
 		}
 	}
+	for i, r := range tr.Ops {
+		for k, n := range r.Notifs {
+			if n.Changed != "" {
+				return evid.Failf("pool/notification-changed-in-callback", sc, "operation %d: notification %d changed while the observe callback was running: %s", i, k, n.Changed)
+			}
+		}
+	}
 	for _, h := range tr.Handler {
 		if h.HeldChange != "" {
 			return evid.Failf("pool/request-changed-in-handler", sc, "the request of operation %d changed while its handler was running (%s side): %s", h.Op, h.Side, h.HeldChange)
@@ -54,6 +61,7 @@ func genFaults(t *rapid.T, label string) []memnet.Fault {
 
 func gen(t *rapid.T) pairsim.Scenario {
 	sc := pairsim.Scenario{Transport: rapid.SampledFrom([]string{"udp", "udp", "tcp"}).Draw(t, "transport"), TickMs: rapid.SampledFrom([]int{100, 500}).Draw(t, "tick"), SettleMs: 20000}
+	sc.NotifHoldMs = rapid.SampledFrom([]int{0, 1, 30}).Draw(t, "nhold")
 	bw := rapid.IntRange(0, 4).Draw(t, "bw") > 0
 	ps := rapid.SampledFrom([]int{2, 3, 4, 8}).Draw(t, "pool")
 	sc.Cli = pairsim.EndCfg{SZX: rapid.IntRange(0, 6).Draw(t, "cszx"), Blockwise: bw, Queue: rapid.SampledFrom([]int{0, 1, 16}).Draw(t, "cq"), PoolSize: ps, AckTimeoutMs: 300, MaxRetransmit: rapid.IntRange(0, 3).Draw(t, "cmr"), Limit: rapid.SampledFrom([]int{1, 16}).Draw(t, "limit"), BwTimeoutMs: rapid.SampledFrom([]int{500, 3000}).Draw(t, "bwt")}
@@ -72,7 +80,9 @@ func gen(t *rapid.T) pairsim.Scenario {
 			kinds = append(kinds, "cancelobs")
 		}
 		op := pairsim.Op{Kind: rapid.SampledFrom(kinds).Draw(t, "kind"), DeadlineMs: rapid.SampledFrom([]int{200, 2000, 10000}).Draw(t, "deadline"), Async: rapid.IntRange(0, 2).Draw(t, "async") == 0, ETag: rapid.Bool().Draw(t, "etag")}
-		sz := func(label string) int { return rapid.SampledFrom([]int{0, 1, 15, 16, 17, 100, 1025, 3000}).Draw(t, label) }
+		sz := func(label string) int {
+			return rapid.SampledFrom([]int{0, 1, 15, 16, 17, 100, 1025, 3000}).Draw(t, label)
+		}
 		switch op.Kind {
 		case "post", "put":
 			op.Up, op.Down = sz("up"), sz("down")
@@ -153,7 +163,7 @@ func TestCheck(t *testing.T) {
 		return f
 	})
 	r.Main(evid.Meta{
-		Rule:        fmt.Sprint("the mixed scenarios of C04/C13 (plain and block-wise requests in both directions, one-way writes, observe + notifications + cancel, ping; endings by answer, silence, slow handler, caller cancellation, separate response; fault tapes with drop/duplicate/re-order/replay on the datagram link, segmentation on the stream; partly concurrent) run between two library endpoints whose pools hold only 2-8 objects and are instrumented through the verif life-cycle hook: per-object state machine (a second release without re-acquisition is a violation), poison of every retained buffer on release, poison verified on the next acquisition and in an end-of-run sweep (a library write after release), fingerprint for objects the full pool did not keep; application side: every response returned from a call is snapshotted and held across the following operation(s), every request is snapshotted at handler entry and compared at exit after the handler slept while other traffic churned the pool. scripted: the same monitor on one client connection against the scripted wire-level peer (endings: answer, silence, bare ACK, reset, duplicated and stray replies, undecodable block option, first block then silence, block-wise download; cancellation; token re-use), which reaches the error paths that release early. Non-trivial = at least one object was recycled during a scenario with >= 2 operations; distinct by scenario"),
+		Rule:        fmt.Sprint("the mixed scenarios of C04/C13 (plain and block-wise requests in both directions, one-way writes, observe + notifications + cancel, ping; endings by answer, silence, slow handler, caller cancellation, separate response; fault tapes with drop/duplicate/re-order/replay on the datagram link, segmentation on the stream; partly concurrent) run between two library endpoints whose pools hold only 2-8 objects and are instrumented through the verif life-cycle hook: per-object state machine (a second release without re-acquisition is a violation), poison of every retained buffer on release, poison verified on the next acquisition and in an end-of-run sweep (a library write after release), fingerprint for objects the full pool did not keep; application side: every response returned from a call is snapshotted and held across the following operation(s), every request is snapshotted at handler entry and compared at exit after the handler slept while other traffic churned the pool, every notification likewise at entry and exit of the observe callback (which holds it for 0-30 ms). scripted: the same monitor on one client connection against the scripted wire-level peer (endings: answer, silence, bare ACK, reset, duplicated and stray replies, undecodable block option, first block then silence, block-wise download; cancellation; token re-use), which reaches the error paths that release early. Non-trivial = at least one object was recycled during a scenario with >= 2 operations; distinct by scenario"),
 		Assumptions: []string{"library reads after release are only visible if they lead to a write, a crash or changed application-visible content", "goroutine interleavings are the runtime's"},
 		Floor:       300,
 	}, eng, scripted)
